@@ -51,6 +51,8 @@ claimed = {
          "HTTP-date and IPv6 clauses outside (time.Parse / netip not interpreted)", "§0 C31"),
  "C32": ("every entry of the byte-class tables equals its RFC predicate (one symbolic byte, exhaustive), header-key canonicalisation vs net/textproto on tokens ≤4 bytes, quoting and HTML-escape definitions on ≤4 bytes",
          "token/HTML lengths ≤4", "§0 C32"),
+ "C33": ("PipeConns as a byte stream: every sequential history of 2/3 writes of ≤3/≤4 arbitrary bytes on one end (both directions), optionally interleaved with reads of size 1 or 8, then Close: the other end reads exactly the concatenation in order, then EOF; writes after Close fail",
+         "sequential histories only; deadlines, concurrent use and InmemoryListener outside", "§0 C33"),
  "C34": ("response body streams through the real ServeConn loop: an io.ReadCloser with ≤4/≤8 arbitrary bytes × read chunking × declared size exact/unknown × panic in Read (none/1st/2nd) × connection write failure: Close is called exactly once on every path, and without a fault the peer's bytes (fixed or chunked) decode to exactly the stream's bytes",
          "bounds as stated; request streams, stream writers, size-mismatching streams, reset/release without a write outside", "§0 C34"),
  "C40": ("one LBClient call from an arbitrary state with ≤3/≤5 fake clients (symbolic pending, total, penalty ≤ maxPenalty, outcome): routed to the (load, total)-minimal client, penalty step bounded by 300 and undone after 3 s of virtual time; no clients → ErrNoAvailableClients",
@@ -68,7 +70,6 @@ na = {
  "C23": "not built: fsHandler.handleRequest depends on os/io-fs calls that need a harness file system; not brought up under the interpreter in this build",
  "C25": "not built: the cache-manager inductive step with ghost reader/release counts was not written in this build",
  "C27": "not built: the URI reparse round-trip and the differential against an interpreted net/url were not written in this build",
- "C33": "not built: PipeConns/InmemoryListener run on channels the engine models, but the op-sequence harness (fasthttputil package) was not written in this build",
  "C35": "not built: multipart parsing (mime/multipart) and temp-file interception were not brought up under the interpreter",
  "C36": "the oracle is net/http's own server; differential behaviour of two full HTTP servers is outside bounded symbolic execution of this code",
  "C37": "data races are not representable in a sequentially consistent interpreter; a solver query over SSA cannot decide happens-before",
